@@ -104,21 +104,21 @@ def check_exceptions(idx: Index, rep: Report) -> None:
     sites = []  # (function info, call)
     for nm, defs in (cls14.methods.items() if cls14 is not None else []):
         for d in defs:
-            for c in calls_in(d.raw_node):
+            for c in calls_in(d.as_raw().node):
                 if call_attr(c) == "run_op":
                     sites.append((d, c))
     if not sites:
         raise AnalysisError(f"{f.fq}: no interpreter.run_op call found in ConstantFoldInterpPattern")
     caught = None
     for d, c in sites:
-        hs = handlers_around(d.raw_node, c)
+        hs = handlers_around(d.as_raw().node, c)
         if not hs and d.name != "match_and_rewrite" and cls14 is not None:
             # a helper: every call of it must be inside a try
             for nm2, defs2 in cls14.methods.items():
                 for d2 in defs2:
-                    for c2 in calls_in(d2.raw_node):
+                    for c2 in calls_in(d2.as_raw().node):
                         if call_attr(c2) == d.name:
-                            hs = hs or handlers_around(d2.raw_node, c2)
+                            hs = hs or handlers_around(d2.as_raw().node, c2)
         cs = set().union(*hs) if hs else set()
         caught = cs if caught is None else caught & cs
     caught = caught or set()
@@ -311,8 +311,8 @@ def check_cse(idx: Index, rep: Report) -> None:
     f = idx.func(CSE, "CSEDriver._simplify_operation")
     from ..paths import enum_paths, expand_predicates
 
-    helpers = {nm: (d[0].raw_node, True) for nm, d in (f.cls.methods.items() if f.cls is not None else []) if nm.startswith("_") and not nm.startswith("__") and nm not in ("_replace_and_delete", "_mark_erasure", "_simplify_operation")}
-    paths = [p for p in expand_predicates(enum_paths(f.raw_node), helpers) if p.feasible()]
+    helpers = {nm: (d[0].as_raw().node, True) for nm, d in (f.cls.methods.items() if f.cls is not None else []) if nm.startswith("_") and not nm.startswith("__") and nm not in ("_replace_and_delete", "_mark_erasure", "_simplify_operation")}
+    paths = [p for p in expand_predicates(enum_paths(f.as_raw().node), helpers) if p.feasible()]
     n_sites = 0
     for pth in paths:
         reps_ = [(k, e_) for k, e_ in enumerate(pth.effects) if isinstance(e_, ast.Expr) and isinstance(e_.value, ast.Call) and unparse(e_.value.func) == "self._replace_and_delete"]
@@ -490,8 +490,8 @@ def check_cse_scopes(idx: Index, rep: Report) -> None:
     def _pushes(fn_):
         return [n for n in walk_local(fn_) if isinstance(n, ast.Assign) and unparse(n.targets[0]) == "self._known_ops" and any(isinstance(c_, ast.Call) and unparse(c_.func) == "KnownOps" for c_ in ast.walk(n.value))]
 
-    region_scoped = bool(_pushes(drv.raw_node))
-    pushes = _pushes(drv.raw_node) + _pushes(blk.raw_node)
+    region_scoped = bool(_pushes(drv.as_raw().node))
+    pushes = _pushes(drv.as_raw().node) + _pushes(blk.as_raw().node)
     if not pushes:
         raise AnalysisError(f"{drv.fq}: scope push `self._known_ops = <new scope>(...)` not found")
     for n in pushes:
@@ -500,7 +500,7 @@ def check_cse_scopes(idx: Index, rep: Report) -> None:
                 raise AnalysisError(f"{drv.fq}: scope push `{unparse(n)}` not understood")
         r.ok(f"{drv.fq}:push@{n.lineno}", f"{drv.loc} `{unparse(n)}`")
     # every region of an operation gets its own scope: what one region records is not known in a sibling region
-    for w in walk_local(blk.raw_node):
+    for w in walk_local(blk.as_raw().node):
         if isinstance(w, ast.For) and re.fullmatch(r"\w+\.regions", unparse(w.iter)):
             calls_ = [c_ for c_ in calls_in(w) if unparse(c_.func) in ("self._simplify_region", "self.simplify_region")]
             if not calls_:
